@@ -65,32 +65,14 @@ func ruleLoadOnlyNeeded(c *Ctx) {
 		c.undecided(rule, fn, fd.Pos(), "outside the fragment the effect normal form supports: "+unsup)
 		return
 	}
-	var mentions func(v sval, o types.Object) bool
-	mentions = func(v sval, o types.Object) bool {
-		switch x := v.(type) {
-		case svPath:
-			return x.root == o
-		case svAddr:
-			return x.p.root == o
-		case svBin:
-			return mentions(x.x, o) || mentions(x.y, o)
-		case svNot:
-			return mentions(x.x, o)
-		case svCall:
-			if x.recv != nil && mentions(x.recv, o) {
-				return true
+	mentions := func(v sval, o types.Object) bool {
+		found := false
+		svWalk(v, func(x sval) {
+			if p, ok := x.(svPath); ok && p.root == o {
+				found = true
 			}
-			for _, a := range x.args {
-				if mentions(a, o) {
-					return true
-				}
-			}
-		case svIndex:
-			return mentions(x.x, o)
-		case svSel:
-			return mentions(x.x, o)
-		}
-		return false
+		})
+		return found
 	}
 	type verdict struct {
 		ok  bool
